@@ -29,9 +29,12 @@ import numpy as np
 from lib import core, gen, oracle, graphcap
 
 EXTRACTORS = []
+# further property file of C08 (work package c08): Props/C08b.lean is built and audited with C08
+EXTRA_PROPS = ["C08b"]
 BACKENDS = [None, "numpy", "numpy.numpylike", "numpy.einsum"]
 RELS = ["R1", "R2", "R3", "R4", "R5", "R6"]
 LEAN_EW = ("add", "subtract", "multiply", "maximum", "minimum")
+LEAN_RED = ("sum", "max", "min")
 NAME_RE = re.compile(r"[A-Za-z_][A-Za-z0-9_]*")
 
 
@@ -168,14 +171,25 @@ def lean_denote(ctx, call, solved, args):
     if not ctx.driver_ok or solved is None:
         return None
     fam = call["family"]
-    if not (fam == "id" or (fam == "elementwise" and call["op"] in LEAN_EW)):
+    # reductions and dot: the executable loop forms Denote.denoteReduce / Denote.denoteDot (driver kind `denote`), which the
+    # theorems of Props/C08b.lean are about; integer sum/max/min only (exact in the model; prod could overflow int64 in numpy)
+    red = fam == "reduce" and call["op"] in LEAN_RED and len(args) == 1 and not call.get("kwargs", {}).get("keepdims")
+    if not (fam == "id" or (fam == "elementwise" and call["op"] in LEAN_EW) or red or fam == "dot"):
         return None
     if fam == "elementwise" and len(args) != 2:
         return None      # the driver's integer interpretation of add/multiply/... is binary; n-ary forms are covered by C01's oracle
     if any(np.asarray(a).dtype.kind not in "iu" for a in args):
         return None
     ei, eo = solved
-    kind = "denote_fun" if is_concat_free(solved) else "denote"
+    # `denote_fun` runs the functional form next to the executable loop form and compares them cell by cell: id (with
+    # concatenations: Denote.denoteIdFunG), elementwise, reduce, dot (concatenation-free)
+    kind = "denote_fun" if (fam == "id" or is_concat_free(solved)) else "denote"
+    if fam in ("reduce", "dot"):
+        if not is_concat_free(solved):
+            return None
+        ctx.count("denote-loop:" + fam)
+    if fam == "id" and not is_concat_free(solved):
+        ctx.count("denote-fun:id-with-concatenation")
     r = ctx.driver().ask({"kind": kind, "family": fam, "op": call["op"], "exprs_in": ei, "exprs_out": eo, "inputs": [tens(a) for a in args]})
     if kind == "denote_fun":
         ctx.count("denote_fun:" + ("agree" if r.get("agree") else "DISAGREE"))
@@ -352,6 +366,49 @@ def t_regroup(call, args, solved, trng):
 TRANSFORMS = {"R1": t_rename, "R2": t_permute_input, "R3": t_permute_output, "R4": t_regroup}
 
 
+def bracket_order_tie(ctx, call, args, res1, solved1, backend, tseed):
+    """Tie for Props/C08b `denote_reduce_permute_input` / `denote_reduce_bracket_order`: permute *all* root dimensions of
+    the input of a reduction -- bracketed ones included -- and transpose the tensor; einx and the Lean denotation must
+    both return the same result.  This goes beyond the property's text (which only moves un-bracketed axes), so a
+    difference is recorded as a broken tie, never as a violation by itself."""
+    if call["family"] != "reduce" or "..." in call["desc"] or "+" in call["desc"]:
+        return
+    ins, outs = parse_desc(call["desc"])
+    if outs is None or len(ins) != 1 or len(args) != 1:
+        return
+    dims = root_dims(ins[0])
+    if len(dims) != np.asarray(args[0]).ndim or sum(1 for d in dims if not movable(d)) < 2:
+        return
+    trng = random.Random(tseed ^ 0x5BD1E995)
+    perm = list(range(len(dims)))
+    trng.shuffle(perm)
+    if [p for p in perm if not movable(dims[p])] == sorted(p for p in perm if not movable(dims[p])):
+        return      # bracketed dimensions kept their relative order: that is R2
+    c2 = dict(call)
+    c2["desc"] = join_desc([" ".join(dims[p] for p in perm)], outs)
+    c2["shapes"] = [tuple(np.transpose(np.zeros(call["shapes"][0]), perm).shape)]
+    a2 = [np.transpose(np.asarray(args[0]), perm)]
+    try:
+        res2, solved2 = run_call(c2, a2, backend)
+    except Exception as e:
+        ctx.count(f"reduce-bracket-order:raised:{type(e).__name__}")
+        return
+    ctx.count("reduce-bracket-order")
+    ctx.extra["reduce_bracket_order_cases"] = ctx.extra.get("reduce_bracket_order_cases", 0) + 1
+    if not same_all(res2, res1):
+        ctx.tie_broken("correspondence:reduce-bracket-order",
+                       f"einx.{call['op']}({call['desc']!r}) vs ({c2['desc']!r}) on the transposed tensor (perm {perm}) differ; shapes={call['shapes']}")
+    if ctx.driver_ok:
+        m1 = lean_denote(ctx, call, solved1, args)
+        m2 = lean_denote(ctx, c2, solved2, a2)
+        if m1 is not None and m2 is not None:
+            ctx.count("reduce-bracket-order:model")
+            if not same_all(m2, m1):
+                ctx.tie_broken("correspondence:model-relation", f"bracket order: the Lean denotation differs on {call['op']} {call['desc']!r} vs {c2['desc']!r} perm {perm}")
+            if not (same_all(m1, res1) and same_all(m2, res2)):
+                ctx.tie_broken("correspondence:model-vs-einx", f"bracket order: einx and the Lean denotation differ on {call['op']} {call['desc']!r} / {c2['desc']!r} shapes={call['shapes']}")
+
+
 def check_pair(ctx, rel, call, args, backend, tseed, model=True):
     """Evaluate one of R1-R4 on a base call.  Returns None (holds / not applicable -> Skip raised) or a failure dict."""
     import einx
@@ -362,6 +419,8 @@ def check_pair(ctx, rel, call, args, backend, tseed, model=True):
         raise Skip("operation not supported by this backend")
     except Exception as e:
         raise Skip("base call raised " + type(e).__name__)
+    if rel == "R2" and model:
+        bracket_order_tie(ctx, call, args, res1, solved1, backend, tseed)
     c2, a2, post, info = TRANSFORMS[rel](call, args, solved1, trng)
     try:
         res2, solved2 = run_call(c2, a2, backend)
@@ -648,6 +707,42 @@ def gen_id_cse(rng):
             "kwargs": {x: sizes[x] for x in inside}, "note": ["cse"]}
 
 
+def directed_dot_calls():
+    """Deterministic dot calls with two contracted axes of equal length that appear in different orders in the operands
+    (the case in which contracted axes could be paired by position), with and without brackets, with a batch axis, on the
+    backends that lower dot differently.  They run under R2/R3 and the model cross-check (Denote.denoteDot) on every run."""
+    out = []
+    for backend in ("numpy.numpylike", "numpy.einsum", None):
+        for desc, shapes in [
+            ("a b c, b c d -> a d", [(2, 3, 3), (3, 3, 2)]),
+            ("a b c, c b d -> d a", [(2, 3, 3), (3, 3, 2)]),
+            ("a [b c], [c b] d -> a d", [(2, 2, 2), (2, 2, 3)]),
+            ("e c a b, b e d c -> e a d", [(2, 2, 3, 2), (2, 2, 1, 2)]),
+            ("[b] a [c], [c] [b] -> a", [(3, 2, 3), (3, 3)]),
+        ]:
+            out.append({"op": "dot", "family": "dot", "desc": desc, "shapes": shapes, "kwargs": {}, "note": ["directed-dot"], "backend": backend})
+    return out
+
+
+def directed_reduce_calls():
+    """Deterministic reductions with two or three separately bracketed axes between un-bracketed ones, all lengths equal
+    (a wrong axis is then invisible to every shape check).  They run under R2/R3, the bracket-order tie and the model
+    cross-check (Denote.denoteReduce) on every run."""
+    out = []
+    for op in ("sum", "max"):
+        for desc, shape in [
+            ("[a] b [c] d -> b d", (2, 2, 2, 2)),
+            ("[a] b [c] d -> d b", (3, 3, 3, 3)),
+            ("b [a] d [c] -> b d", (2, 2, 2, 2)),
+            ("[a] [b] c d -> d c", (2, 2, 2, 2)),
+            ("a [b] c [d] e [f] -> e a c", (2, 2, 2, 2, 2, 2)),
+            ("(a [b]) c [d] -> c a", (4, 2, 2)),
+        ]:
+            kw = {"a": 2} if desc.startswith("(") else {}
+            out.append({"op": op, "family": "reduce", "desc": desc, "shapes": [shape], "kwargs": kw, "note": ["directed-reduce"], "backend": None})
+    return out
+
+
 _DIRECTED = None
 
 
@@ -701,6 +796,23 @@ def run(ctx):
             ctx.count(f"directed:{rel}:{'ok' if fail is None else 'VIOLATED'}")
             if fail is not None:
                 small = shrink_pair(ctx, rel, dict(call), None, tseed)
+                fail = small or fail
+                ctx.violation(sig_pair(fail), fail)
+        if len(ctx.violations) >= 4:
+            break
+    for call in directed_dot_calls() + directed_reduce_calls():
+        for rel in ("R2", "R3"):
+            args = gen.make_args(call, rng, "rand")
+            tseed = rng.randrange(1 << 30)
+            try:
+                fail = check_pair(ctx, rel, dict(call), args, call["backend"], tseed)
+            except Skip:
+                ctx.count(f"directed-dot:{rel}:skipped")
+                continue
+            ctx.case(f"directed {rel} {call['op']} {call['desc']} {call['backend']}", True)
+            ctx.count(f"directed-dot:{rel}:{'ok' if fail is None else 'VIOLATED'}")
+            if fail is not None:
+                small = shrink_pair(ctx, rel, dict(call), call["backend"], tseed)
                 fail = small or fail
                 ctx.violation(sig_pair(fail), fail)
         if len(ctx.violations) >= 4:
